@@ -194,7 +194,11 @@ class CertificateStore:
         cert = x509.load_der_x509_certificate(data, default_backend())
         self._certs_by_der[data] = cert
 
-        ski = cert.extensions.get_extension_for_class(x509.SubjectKeyIdentifier).value.digest
+        try:
+            ski = cert.extensions.get_extension_for_class(x509.SubjectKeyIdentifier).value.digest
+        except x509.ExtensionNotFound:
+            # only CA certificates have to carry one
+            return
         self._certs_by_ski[ski] = cert
 
     def find_chain(self, alg_id: int, want_tprint: bytes) -> Tuple[bytes]:
